@@ -52,9 +52,7 @@ Definition at_most_once (ops : list op) : bool := nodupN (recv_ids ops).
 Definition comps_closed (cs : list comp) : list N :=
   flat_map (fun x => match x with CClose c => [c] | _ => [] end) cs.
 
-(* [strict = false]: only clients that had subscribed count as closed by Client.Close
-   (Client.Close returns without doing anything for a client that never called Sub). *)
-Fixpoint after_close (strict : bool) (subs closed : list N) (qclosed : bool) (ops : list (op * list comp)) : bool :=
+Fixpoint after_close (closed : list N) (qclosed : bool) (ops : list (op * list comp)) : bool :=
   match ops with
   | [] => true
   | (o, cs) :: tl =>
@@ -67,13 +65,9 @@ Fixpoint after_close (strict : bool) (subs closed : list N) (qclosed : bool) (op
                     then match out with Some _ => true | None => false end else true
                 | _ => true
                 end in
-      let closed' := match o with
-                     | OClose c true => if strict || memN c subs then c :: closed else closed
-                     | _ => closed
-                     end in
-      let subs' := match o with OSub c _ => c :: subs | _ => subs end in
+      let closed' := match o with OClose c true => c :: closed | _ => closed end in
       let q' := match o with OCloseQ => true | _ => qclosed end in
-      ok && after_close strict subs' (comps_closed cs ++ closed') q' tl
+      ok && after_close (comps_closed cs ++ closed') q' tl
   end.
 
 (** *** clause 4: once the queue is closed no send stays blocked for ever
